@@ -323,14 +323,19 @@ func TestVerif_C07_codec(t *testing.T) {
 	defer r.Write()
 	maxLen := verifmc.Pick(2, 3)
 	fullLimit := verifmc.Pick(160, 1200)
-	r.Rule = fmt.Sprintf("round trip: every shape of {leaf,branch} x value {none,empty,1,32,33 inline,33 hashed,64,16384 bytes} x partial key length at every header boundary of the variant (0,1,2, max-1..max+1, max+254..max+256, max+509..max+511, last multiple, 65534, 65535 for max=63/31/15; plus 62..65,317..319,573) x 10 child configurations (inline leaf / hashed / inline branch, 1, 2 or 16 children) is encoded by the reference encoder, decoded with codec.Decode[H256] and compared field by field with its description; robustness: every byte string of length <= %d, for every valid encoding of <= %d bytes every single-byte substitution (255 values x every position), every truncation and 3 appended bytes, for longer encodings the same at every structural offset (header, key ends, bitmap, length prefixes, field starts), (inputs declaring a byte-string length above 16 MiB are executed serially for designated pk=1 shapes and counted as skipped for the others), every valid encoding through a reader that splits at every offset (<= %d bytes) and a one-byte-per-Read reader. Non-trivial = the decoder returned a node or got past the header", maxLen, fullLimit, fullLimit)
-	mon := c07NewMonitor(r, 60*time.Second)
+	r.Rule = fmt.Sprintf("round trip: every shape of {leaf,branch} x value {none,empty,1,32,33 inline,33 hashed,64,16384 bytes} x partial key length at every header boundary of the variant (0,1,2, max-1..max+1, max+254..max+256, max+509..max+511, last multiple, 65534, 65535 for max=63/31/15; plus 62..65,317..319,573) x 10 child configurations (inline leaf / hashed / inline branch, 1, 2 or 16 children) is encoded by the reference encoder, decoded with codec.Decode[H256] and compared field by field with its description; robustness: every byte string of length <= %d, for every valid encoding of <= %d bytes every single-byte substitution (255 values x every position), every truncation and 3 appended bytes, for longer encodings the same at every structural offset (header, key ends, bitmap, length prefixes, field starts), (inputs declaring a byte-string length above 64 KiB are executed serially for designated pk=1 shapes and counted as skipped for the others), every valid encoding through a reader that splits at every offset (<= %d bytes) and a one-byte-per-Read reader. Non-trivial = the decoder returned a node or got past the header", maxLen, fullLimit, fullLimit)
+	mon := c07NewMonitor(r, 300*time.Second)
 	defer close(mon.stop)
 
 	shapes := ref.C07Shapes(verifmc.Thorough())
 	encs := make([][]byte, len(shapes))
 	marks := make([][]int, len(shapes))
 
+	phase := time.Now()
+	lap := func(name string) {
+		r.Extra["seconds_"+name] = fmt.Sprintf("%.1f", time.Since(phase).Seconds())
+		phase = time.Now()
+	}
 	// ---- (a) round trip
 	var mu sync.Mutex
 	verifmc.ParallelFor(r, len(shapes), func(i int) {
@@ -370,6 +375,7 @@ func TestVerif_C07_codec(t *testing.T) {
 		r.Violate("harness-panic", msg, shapes[i].Name)
 	})
 
+	lap("roundtrip")
 	// ---- (b1) every byte string up to maxLen
 	nAll := verifmc.NumBytesUpTo(maxLen)
 	const chunk = 4096
@@ -408,13 +414,14 @@ func TestVerif_C07_codec(t *testing.T) {
 		classes.flush(r)
 	}, func(i int, msg string) { r.Violate("harness-panic", msg, i) })
 
+	lap("bytes")
 	// ---- (b2) deviation-1 neighbourhood of every valid encoding, (b3) unfriendly readers
 	//
-	// Inputs that declare a SCALE byte-string length above 16 MiB make the SCALE decoder allocate
+	// Inputs that declare a SCALE byte-string length above 64 KiB make the SCALE decoder allocate
 	// that much (up to 1 GiB for a 30-byte input - C12's subject, not a panic or a hang).  They are
 	// recognised by an independent structural walk (ref.C07MaxDeclaredLen), executed one at a time
 	// for the designated shapes and counted as skipped for the others.
-	const heavyFrom = 16 << 20
+	const heavyFrom = 64 << 10
 	var heavyMu sync.Mutex
 	readerSem := make(chan struct{}, 2)
 	verifmc.ParallelFor(r, len(shapes), func(i int) {
@@ -444,6 +451,7 @@ func TestVerif_C07_codec(t *testing.T) {
 				}
 				heavyRun++
 				heavyMu.Lock()
+				task.at(c07Pack(kind, pos, val))
 				defer func() {
 					debug.FreeOSMemory()
 					heavyMu.Unlock()
@@ -506,15 +514,16 @@ func TestVerif_C07_codec(t *testing.T) {
 			classes.add("deviation:decodes-to-another-node")
 		}
 		if heavySkipped > 0 {
-			classes.add("deviation:declares-more-than-16MiB(skipped,counted)")
+			classes.add("deviation:declares-more-than-64KiB(skipped,counted)")
 		}
 		// unfriendly readers: only panic / hang are demanded; the result classes are counted
 		var rev int64
 		reader := func(name string, rd io.Reader, pos int) {
-			task.at(c07Pack(name, pos, 0))
 			readerSem <- struct{}{} // a short read shifts the stream: declared lengths are unpredictable
+			task.at(c07Pack(name, pos, 0))
 			res := c07Decode(rd)
 			<-readerSem
+			task.at(c07Pack(name, pos, 0))
 			rev++
 			switch {
 			case res.panicked:
@@ -539,6 +548,7 @@ func TestVerif_C07_codec(t *testing.T) {
 		r.Add("evaluations", rev)
 		r.Add("reader_inputs", rev)
 	}, func(i int, msg string) { r.Violate("harness-panic", msg, shapes[i].Name) })
+	lap("deviations_and_readers")
 	r.Extra["max_bytes_len"] = maxLen
 	r.Extra["full_neighbourhood_up_to_bytes"] = fullLimit
 	r.Extra["shapes"] = len(shapes)
